@@ -89,6 +89,8 @@ type Case struct {
 	ErrFirst bool `json:"err_first,omitempty"`
 	// SwitchDest: with Jobs > 1, the Generator gets a new destination object for the later job.
 	SwitchDest bool `json:"switch_dest,omitempty"`
+	// PathTransform: SetTransform (the path-data transform) is in force while the helper is called.
+	PathTransform bool `json:"path_transform,omitempty"`
 	// Retarget: with a Renderer as destination, after the first filled path the Renderer is aimed at
 	// this rectangle (x, y, w, h) and another path is filled with the gradient still in the registers.
 	Retarget *[4]int    `json:"retarget,omitempty"`
@@ -245,8 +247,15 @@ func oneJob(c Case, gp *generate.Generator, hook *ops.Recorder, enc *encode.Enco
 	if cs0 != c.PriorCSel&63 || ns0 != c.PriorNSel&63 {
 		return harness.Violatef("c19/prior-selectors", "%s destination reports CSEL=%d NSEL=%d after the prior writes, the machine holds %d/%d", c.Dest, cs0, ns0, c.PriorCSel&63, c.PriorNSel&63)
 	}
+	if c.PathTransform {
+		// a path-data transform configured on the Generator is no business of the gradient helpers
+		g.SetTransform(generate.Scale(2, 3), generate.Translate(5, -7))
+	}
 	stopsModified = false
 	err := callHelper(&g, c)
+	if c.PathTransform {
+		g.SetTransform()
+	}
 	if stopsModified {
 		return harness.Violatef("c19/stops-modified", "the helper modified the caller's stop list")
 	}
@@ -574,7 +583,13 @@ func genCase(t *rapid.T) (Case, []string) {
 	c.Kind = rapid.SampledFrom([]string{"linear", "circular", "elliptical", "gradient"}).Draw(t, "kind")
 	c.Spread = uint8(rapid.IntRange(0, 3).Draw(t, "spread"))
 	m := mag(t)
-	pt := func(l string) float32 { return float32(rapid.Float64Range(-m, m).Draw(t, l)) }
+	far := 1.0
+	if rapid.IntRange(0, 5).Draw(t, "far") == 0 {
+		// geometry small against its distance from the origin (an icon detail in a big canvas)
+		far = math.Pow(10, rapid.Float64Range(1, 3.6).Draw(t, "farby"))
+		labels = append(labels, "geometry-far-from-the-origin-relative-to-its-size")
+	}
+	pt := func(l string) float32 { return float32(far * rapid.Float64Range(-m, m).Draw(t, l)) }
 	switch c.Kind {
 	case "linear":
 		x1, y1 := pt("x1"), pt("y1")
@@ -662,6 +677,10 @@ func genCase(t *rapid.T) (Case, []string) {
 	if c.Dest == "renderer" && rapid.IntRange(0, 2).Draw(t, "retarget") == 0 {
 		c.Retarget = &[4]int{rapid.IntRange(0, 9).Draw(t, "rtx"), rapid.IntRange(0, 9).Draw(t, "rty"), w << uint(rapid.IntRange(0, 4).Draw(t, "rtkx")), h << uint(rapid.IntRange(0, 4).Draw(t, "rtky"))}
 		labels = append(labels, "renderer-re-targeted-between-two-fills-of-the-same-gradient")
+	}
+	if rapid.IntRange(0, 3).Draw(t, "pathtransform") == 0 {
+		c.PathTransform = true
+		labels = append(labels, "path-data-transform-in-force")
 	}
 	if rapid.IntRange(0, 4).Draw(t, "errfirst") == 0 {
 		c.ErrFirst = true
